@@ -11,12 +11,13 @@ Definition core_eq (s s' : state) : Prop :=
   g_ready_sent s' = g_ready_sent s /\ g_received s' = g_received s /\ g_done_sent s' = g_done_sent s /\
   g_qproc s' = g_qproc s /\ g_finished s' = g_finished s /\ counts s' = counts s /\
   members s' = members s /\ trace s' = trace s /\ completed s' = completed s /\
-  s_err s' = s_err s /\ s_rem s' = s_rem s /\ q_rem s' = q_rem s /\ errs s' = errs s.
+  s_err s' = s_err s /\ s_rem s' = s_rem s /\ q_rem s' = q_rem s /\ errs s' = errs s /\
+  s_alive s' = s_alive s /\ w s' = w s.
 
 Lemma Inv_core_eq cf s s' : core_eq s s' -> Inv cf s -> Inv cf s'.
 Proof.
-  intros (E1 & E2 & E3 & E4 & E5 & E6 & E7 & E8 & E9 & E10 & E11 & E12 & E13 & E14 & E15 & E16 & E17 & E18 & E19) H.
-  destruct H. constructor; rewrite ?E1, ?E2, ?E3, ?E4, ?E5, ?E6, ?E7, ?E8, ?E9, ?E10, ?E11, ?E12, ?E13, ?E14, ?E15, ?E16, ?E17, ?E18, ?E19; assumption.
+  intros (E1 & E2 & E3 & E4 & E5 & E6 & E7 & E8 & E9 & E10 & E11 & E12 & E13 & E14 & E15 & E16 & E17 & E18 & E19 & E20 & E21) H.
+  destruct H. constructor; rewrite ?E20, ?E21, ?E1, ?E2, ?E3, ?E4, ?E5, ?E6, ?E7, ?E8, ?E9, ?E10, ?E11, ?E12, ?E13, ?E14, ?E15, ?E16, ?E17, ?E18, ?E19; assumption.
 Qed.
 
 Lemma core_eq_refl s : core_eq s s.
@@ -64,7 +65,7 @@ Definition qc_frame (s s' : state) : Prop :=
   g_received s' = g_received s /\ g_done_sent s' = g_done_sent s /\ g_qproc s' = g_qproc s /\
   g_finished s' = g_finished s /\ members s' = members s /\ trace s' = trace s /\
   completed s' = completed s /\ s_err s' = s_err s /\ s_rem s' = s_rem s /\ q_rem s' = q_rem s /\
-  errs s' = errs s.
+  errs s' = errs s /\ s_alive s' = s_alive s /\ w s' = w s.
 
 Lemma q_children cs : forall s,
   NoDup cs -> (forall c, In c cs -> c < length (counts s)) -> (forall c, In c cs -> 1 <= nth c (counts s) 0) ->
@@ -127,8 +128,8 @@ Proof.
       split.
       { destruct Hsent1 as [->|[-> H1]]; [exact Hnd2|]. simpl. constructor; [|exact Hnd2].
         intros Hin. destruct (Hs2 c Hin) as [Hin' _]. contradiction. }
-      destruct Hf1 as (A1 & A2 & A3 & A4 & A5 & A6 & A7 & A8 & A9 & A10 & A11 & A12 & A13 & A14).
-      destruct Hf2 as (B1 & B2 & B3 & B4 & B5 & B6 & B7 & B8 & B9 & B10 & B11 & B12 & B13 & B14).
+      destruct Hf1 as (A1 & A2 & A3 & A4 & A5 & A6 & A7 & A8 & A9 & A10 & A11 & A12 & A13 & A14 & A15 & A16).
+      destruct Hf2 as (B1 & B2 & B3 & B4 & B5 & B6 & B7 & B8 & B9 & B10 & B11 & B12 & B13 & B14 & B15 & B16).
       repeat split; congruence.
 Qed.
 
@@ -172,7 +173,7 @@ Proof.
     simpl. destruct (poll_recv_other _ _ _ Hrecv ltac:(discriminate)) as [Hb [Hb' [Hcap [Ho Hs]]]].
     eapply Inv_core_eq; [|exact Hinv].
     assert (Hce := core_eq_drop_ready_tx (s <| done := drop_rx c |> <| q_fin := true |>)).
-    destruct Hce as (E1 & E2 & E3 & E4 & E5 & E6 & E7 & E8 & E9 & E10 & E11 & E12 & E13 & E14 & E15 & E16 & E17 & E18 & E19).
+    destruct Hce as (E1 & E2 & E3 & E4 & E5 & E6 & E7 & E8 & E9 & E10 & E11 & E12 & E13 & E14 & E15 & E16 & E17 & E18 & E19 & E20 & E21).
     unfold core_eq. simpl in *. repeat split; congruence.
   - (* a notification *)
     destruct (poll_recv_some _ _ _ Hrecv) as [Hb [Hcap [Ho Hs]]].
@@ -197,7 +198,7 @@ Proof.
     set (s1 := if q_rem s0 =? 0 then drop_ready_tx s0 else s0).
     assert (Hce1 : core_eq s0 s1).
     { unfold s1. destruct (q_rem s0 =? 0); [apply core_eq_drop_ready_tx | apply core_eq_refl]. }
-    destruct Hce1 as (E1 & E2 & E3 & E4 & E5 & E6 & E7 & E8 & E9 & E10 & E11 & E12 & E13 & E14 & E15 & E16 & E17 & E18 & E19).
+    destruct Hce1 as (E1 & E2 & E3 & E4 & E5 & E6 & E7 & E8 & E9 & E10 & E11 & E12 & E13 & E14 & E15 & E16 & E17 & E18 & E19 & E20 & E21).
     set (cs := children (c_es cf) id).
     assert (Hcs : forall x, In x cs <-> Edge (c_es cf) id x) by (intros x; apply children_spec).
     assert (Hcslt : forall x, In x cs -> x < c_n cf).
@@ -211,7 +212,7 @@ Proof.
       pose proof (Hun x Hx) as Hin. destruct (unproc (c_es cf) (g_qproc s) x); [destruct Hin | simpl; lia]. }
     { rewrite E1. simpl. apply (v_nopanic _ _ Hinv). }
     simpl fst. fold s0. fold s1. fold cs. set (s' := fold_left q_child cs s1) in *.
-    destruct Hfr as (F1 & F2 & F3 & F4 & F5 & F6 & F7 & F8 & F9 & F10 & F11 & F12 & F13 & F14).
+    destruct Hfr as (F1 & F2 & F3 & F4 & F5 & F6 & F7 & F8 & F9 & F10 & F11 & F12 & F13 & F14 & F15 & F16).
     assert (Hcount' : forall x, x < c_n cf ->
               nth x (counts s') 0 = length (unproc (c_es cf) (g_qproc s ++ [id]) x)).
     { intros x Hx. rewrite Hn', E12. simpl. rewrite (v_counts _ _ Hinv x Hx), unproc_snoc.
@@ -264,6 +265,8 @@ Proof.
     + rewrite F13, F6, E18, E10. simpl. rewrite app_length. simpl. lia.
     + rewrite F14, F7, E19, E11. simpl. assumption.
     + rewrite F8, E13. simpl. assumption.
+    + rewrite F15, F2, E20, E5. simpl. assumption.
+    + rewrite F8, F16, E13, E21. simpl. assumption.
 Qed.
 
 Lemma set_panic_done p s : done (set_panic p s) = done s.
